@@ -377,6 +377,28 @@ func c16Body() func(h []dsim.Rec) {
 					return
 				}
 				rs := reqs[k]
+				if stalls {
+					// a task preempted for longer than the write timeout between arming the deadline
+					// and writing loses that request (the socket refuses the late write): bursts may
+					// be incomplete; what was sent must still be a standard request for this sender
+					for _, r := range rs {
+						vals, _ := ref.DefRequestDataStream.Decode(r.f.Payload, r.f.V2)
+						stream, rate, startStop := vals[2].Elems[0], vals[3].Elems[0], vals[4].Elems[0]
+						std := false
+						for _, x := range rdsStreams {
+							std = std || x == stream
+						}
+						if !std || rate != wantRate || startStop != 1 {
+							dsim.Failf("stream-request-content", "%s: request for sys=%d: stream=%d rate=%d start=%d, expected a standard stream, rate=%d start=1", l.name, k.sys, stream, rate, startStop, wantRate)
+							return
+						}
+					}
+					if len(rs) > 7*len(snd.sentAt) {
+						dsim.Failf("stream-request-rate-limit", "%s: %d requests for a sender that sent %d heartbeats", l.name, len(rs), len(snd.sentAt))
+						return
+					}
+					continue
+				}
 				if len(rs)%7 != 0 {
 					dsim.Failf("stream-request-content", "%s: %d stream requests for sys=%d comp=%d, not a multiple of the seven standard streams", l.name, len(rs), k.sys, k.comp)
 					return
@@ -430,7 +452,7 @@ func c16Body() func(h []dsim.Rec) {
 							arrived = true
 						}
 					}
-					if arrived && len(reqs[key{s.sys, s.comp}]) == 0 {
+					if arrived && len(reqs[key{s.sys, s.comp}]) == 0 && !stalls {
 						dsim.Failf("stream-request-trigger", "%s: the ArduPilot heartbeat of sys=%d comp=%d reached the application but no stream request was sent to it", l.name, s.sys, s.comp)
 						return
 					}
